@@ -1,7 +1,7 @@
 (* Prop_C30.v -- C30: problem and scenario generators produce well-formed instances.
    Only statements; each closed by an exact lemma from P_Gen.  No bound on the number of
    variables, colours, edges, grid sizes, events or agents. *)
-From PyDcop Require Import Base M_AgentDef M_Gen P_Gen.
+From PyDcop Require Import Base M_AgentDef M_Gen P_Gen P_Gen2.
 
 (* ---- graph colouring ---- *)
 
@@ -103,6 +103,92 @@ Theorem scenario_removals_distinct_fresh :
   Forall (fun r => NoDup r /\ Z.of_nat (List.length r) = actions /\ incl r agents) (removals evs) /\
   ForallOrdPairs disjoint (removals evs).
 Proof. exact scenario_removals_distinct_fresh_l. Qed.
+
+(* ---- deepening: name rendering is injective, generate_ising end to end ---- *)
+
+(* str(n) and the zero-padded f"{n:0{w}d}" are injective on all naturals (whatever the widths) *)
+Theorem decimal_rendering_injective :
+  (forall a b, str_of_N a = str_of_N b -> a = b) /\
+  (forall w1 w2 a b, zero_pad w1 a = zero_pad w2 b -> a = b) /\
+  (forall i j, var_name i = var_name j -> i = j) /\
+  (forall i j, agt_name i = agt_name j -> i = j).
+Proof. exact (conj str_of_N_inj (conj zero_pad_inj (conj var_name_inj agt_name_inj))). Qed.
+
+(* gc_variables_and_colours_partial without its hypothesis: generate(args) yields exactly the
+   requested colours and the pairwise distinct variables v00 .. v<n-1>, one per graph node,
+   for every number of nodes (f"v{i:02d}" keeps growing past 99 and stays injective) *)
+Theorem gc_variables_and_colours :
+  forall colors kind soft intentional noagents nodes edges rnd o,
+  NoDup nodes ->
+  gc_generate_checked colors kind soft intentional noagents nodes edges rnd = GOk o ->
+  (colors <= 8)%nat /\ gc_domain o = firstn colors COLORS /\ List.length (gc_domain o) = colors /\
+  gc_vars o = map var_name (seq 0 (List.length nodes)) /\ NoDup (gc_vars o) /\
+  List.length (gc_vars o) = List.length nodes.
+Proof. exact gc_variables_and_colours_l2. Qed.
+
+(* ... and one agent a00 .. a<n-1> per variable, pairwise distinct (none with --noagents) *)
+Theorem gc_agents_exact :
+  forall colors kind soft intentional noagents nodes edges rnd o,
+  NoDup nodes ->
+  gc_generate_checked colors kind soft intentional noagents nodes edges rnd = GOk o ->
+  gc_agents o = (if noagents then [] else map agt_name (seq 0 (List.length nodes))) /\
+  NoDup (gc_agents o).
+Proof. exact gc_agents_exact_l. Qed.
+
+(* the strings generate_ising builds for variables, unary / binary constraints and agents
+   (f"v_{r}_{c}", f"cu_v_{r}_{c}", f"cb_v_{r1}_{c1}_v_{r2}_{c2}", f"a_{r}_{c}") are pairwise
+   different for different (kind, coordinates): the structured names of the model and the
+   string keys of the implementation's dicts identify the same things *)
+Theorem ising_names_injective : forall a b,
+  nonneg_name a -> nonneg_name b -> render a = render b -> a = b.
+Proof. exact ising_names_injective_l. Qed.
+
+(* the link between the constraint dict and the factor-graph distribution, on generate_ising
+   itself: every name the distribution maps is a variable or a constraint the generator
+   produced (for ANY graph handed in), and on a periodic grid every variable and every
+   constraint produced is mapped *)
+Theorem ising_fg_mapping_uses_existing_constraints :
+  forall R C ext na vd nodes edges rnd o,
+  generate_ising R C ext na true vd nodes edges rnd = GOk o ->
+  (forall n, In n (hosted (io_fg_mapping o)) -> In n (io_vars o ++ map fst (io_constraints o))) /\
+  (grid_ok R C nodes edges = true ->
+   forall n, In n (io_vars o ++ map fst (io_constraints o)) -> In n (hosted (io_fg_mapping o))).
+Proof. exact ising_fg_mapping_uses_existing_constraints_l. Qed.
+
+(* what generate_ising returns on a periodic grid: one variable per node, one unary constraint
+   per node and one binary constraint per edge, all names distinct *)
+Theorem ising_generate_grid : forall R C ext na fg vd nodes edges rnd o,
+  grid_ok R C nodes edges = true ->
+  generate_ising R C ext na fg vd nodes edges rnd = GOk o ->
+  io_vars o = map NV nodes /\
+  map fst (io_constraints o) = map NCU nodes ++ map NCB (sorted_edges edges) /\
+  NoDup (io_vars o ++ map fst (io_constraints o)) /\
+  io_fg_mapping o = (if fg then fg_loop R C (sorted_edges edges) nodes [] [] else []).
+Proof. exact generate_ising_grid. Qed.
+
+(* end to end: the returned factor-graph distribution hosts every computation of the returned
+   DCOP exactly once and nothing else; same for the variable distribution *)
+Theorem ising_generate_fg_hosts_once : forall R C ext na vd nodes edges rnd o,
+  grid_ok R C nodes edges = true ->
+  generate_ising R C ext na true vd nodes edges rnd = GOk o ->
+  forall n, countb n (hosted (io_fg_mapping o))
+            = if existsb (iname_eqb n) (io_vars o ++ map fst (io_constraints o)) then 1%nat else 0%nat.
+Proof. exact ising_generate_fg_hosts_once_l. Qed.
+
+Theorem ising_generate_var_hosts_once : forall R C ext na fg nodes edges rnd o,
+  NoDup nodes ->
+  generate_ising R C ext na fg true nodes edges rnd = GOk o ->
+  forall n, countb n (hosted (io_var_mapping o))
+            = if existsb (iname_eqb n) (io_vars o) then 1%nat else 0%nat.
+Proof. exact ising_generate_var_hosts_once_l. Qed.
+
+(* the hypotheses above are met on every periodic grid: generate_ising succeeds as soon as
+   random.uniform delivers one value per node and per edge *)
+Theorem ising_generate_total : forall R C ext na fg vd nodes edges rnd,
+  grid_ok R C nodes edges = true ->
+  (List.length nodes + List.length edges <= List.length rnd)%nat ->
+  exists o, generate_ising R C ext na fg vd nodes edges rnd = GOk o.
+Proof. exact ising_generate_total_l. Qed.
 
 (* non-vacuity: a 2 x 2 periodic grid (the case the unfixed code got wrong), a 3-edge hard
    colouring, a 2-event scenario *)
